@@ -1,65 +1,67 @@
 //go:build verif
 
-// Contracts for package annotatelexer (comment-only; read by /verif lhv). C01: no-panic sweep.
+// Contracts for package annotatelexer (comment-only; read by /verif lhv). C01: no-panic sweep. The same sweep runs under C16:
+// ParserLine recovers only the lexer's own error value, so a run-time panic here would take the neighbouring annotation lines with it
+// (per-line isolation; seed C16-lone-quote-at-line-end-panics).
 package annotatelexer
 
 //@ func (*AnnotateToken).GetTokenKind
-//@   sweep C01
+//@   sweep C01 C16
 //@ end
 
 //@ func CreateAnnotateLexer
-//@   sweep C01
+//@   sweep C01 C16
 //@   requires chunk != nil
 //@   ensures result != nil
 //@ end
 
 //@ func (*AnnotateLexer).CheckAliasHeadValid
-//@   sweep C01
+//@   sweep C01 C16
 //@ end
 
 //@ func (*AnnotateLexer).CheckHeardValid
-//@   sweep C01
+//@   sweep C01 C16
 //@ end
 
 //@ func (*AnnotateLexer).test
-//@   sweep C01
+//@   sweep C01 C16
 //@   ensures result ==> len(l.chunk) >= len(s)
 //@   loop 0 invariant 0 <= i && i <= sLen && sLen == len(s) && sLen <= len(l.chunk)
 //@   loop 0 decreases len(s) - i
 //@ end
 
 //@ func (*AnnotateLexer).next
-//@   sweep C01
+//@   sweep C01 C16
 //@   pure
 //@   requires 0 <= n && n <= len(l.chunk)
 //@ end
 
 //@ func (*AnnotateLexer).setNowToken
-//@   sweep C01
+//@   sweep C01 C16
 //@ end
 
 //@ func (*AnnotateLexer).skipWhiteSpaces
-//@   sweep C01
+//@   sweep C01 C16
 //@ end
 
 //@ func (*AnnotateLexer).NextTokenStruct
-//@   sweep C01
+//@   sweep C01 C16
 //@ end
 
 //@ func (*AnnotateLexer).NextToken
-//@   sweep C01
+//@   sweep C01 C16
 //@ end
 
 //@ func (*AnnotateLexer).NextTokenOfKind
-//@   sweep C01
+//@   sweep C01 C16
 //@ end
 
 //@ func (*AnnotateLexer).NextIdentifier
-//@   sweep C01
+//@   sweep C01 C16
 //@ end
 
 //@ func (*AnnotateLexer).NextFieldName
-//@   sweep C01
+//@   sweep C01 C16
 //@ end
 // C16: the manual lets every annotation keyword (fun, table, type, ..., const, enum) double as a field or parameter
 // name.  The keyword table `keywords` is the definition of "keyword"; a name is refused only when the token is not an
@@ -70,11 +72,11 @@ package annotatelexer
 //@ end
 
 //@ func (*AnnotateLexer).NextTypeIdentifier
-//@   sweep C01
+//@   sweep C01 C16
 //@ end
 
 //@ func (*AnnotateLexer).NextParamName
-//@   sweep C01
+//@   sweep C01 C16
 //@ end
 //@ func (*AnnotateLexer).NextParamName
 //@   props C16
@@ -82,80 +84,80 @@ package annotatelexer
 //@ end
 
 //@ func (*AnnotateLexer).scanShortString
-//@   sweep C01
+//@   sweep C01 C16
 //@   requires len(l.chunk) >= 1
 //@   ensures len(l.chunk) < old(len(l.chunk))
 //@ end
 
 //@ func (*AnnotateLexer).scanIdentifier
-//@   sweep C01
+//@   sweep C01 C16
 //@   requires len(l.chunk) >= 1
 //@   ensures len(l.chunk) < old(len(l.chunk))
 //@ end
 
 //@ func (*AnnotateLexer).lookAheardToken
-//@   sweep C01
+//@   sweep C01 C16
 //@   props C16
 //@   ensures[C16,a-waiting-token-is-left-as-it-is] old(l.aheadToken.valid) ==> l.aheadToken.valid && l.aheadToken.tokenKind == old(l.aheadToken.tokenKind)
 //@ end
 
 // C16: the kind returned is that of the token left waiting to be read
 //@ func (*AnnotateLexer).LookAheadKind
-//@   sweep C01
+//@   sweep C01 C16
 //@   props C16
 //@   ensures[C16,answer-is-the-waiting-token] l.aheadToken.valid && result == l.aheadToken.tokenKind
 //@ end
 
 //@ func (*AnnotateLexer).GetRemainComment
-//@   sweep C01
+//@   sweep C01 C16
 //@ end
 
 //@ func (*AnnotateLexer).GetHeardTokenStr
-//@   sweep C01
+//@   sweep C01 C16
 //@ end
 
 //@ func (*AnnotateLexer).ErrorPrint
-//@   sweep C01
+//@   sweep C01 C16
 //@   panics annotatelexer.ParseAnnotateErr
 //@   ensures false
 //@ end
 
 //@ func (*AnnotateLexer).GetHeardLoc
-//@   sweep C01
+//@   sweep C01 C16
 //@   props C16
 //@   ensures[C16,a-waiting-token-is-left-as-it-is] old(l.aheadToken.valid) ==> l.aheadToken.valid && l.aheadToken.tokenKind == old(l.aheadToken.tokenKind)
 //@ end
 
 //@ func (*AnnotateLexer).GetNowLoc
-//@   sweep C01
+//@   sweep C01 C16
 //@   props C16
 //@   ensures[C16,a-waiting-token-is-left-as-it-is] old(l.aheadToken.valid) ==> l.aheadToken.valid && l.aheadToken.tokenKind == old(l.aheadToken.tokenKind)
 //@ end
 
 //@ func (*AnnotateLexer).GetPreLoc
-//@   sweep C01
+//@   sweep C01 C16
 //@ end
 
 //@ func (*AnnotateLexer).SetLastNormalTypeLoc
-//@   sweep C01
+//@   sweep C01 C16
 //@ end
 
 //@ func (*AnnotateLexer).GetLastNormalTypeLoc
-//@   sweep C01
+//@   sweep C01 C16
 //@ end
 
 //@ func isWhiteSpace
-//@   sweep C01
+//@   sweep C01 C16
 //@   pure
 //@ end
 
 //@ func isLetter
-//@   sweep C01
+//@   sweep C01 C16
 //@   pure
 //@ end
 
 //@ func isDigit
-//@   sweep C01
+//@   sweep C01 C16
 //@   pure
 //@ end
 
